@@ -345,7 +345,9 @@ func validateConstraints(
 			ok := true
 			switch {
 			case pv.Name == manifests.Kubernetes:
-				version, err = semver.NewVersion(env.Kubernetes.Version)
+				// The environment holds the version as reported by the API server's
+				// discovery endpoint (gitVersion), which comes with a leading "v".
+				version, err = semver.NewVersion(strings.TrimPrefix(env.Kubernetes.Version, "v"))
 			case pv.Name == manifests.OpenShift && env.OpenShift != nil:
 				version, err = semver.NewVersion(env.OpenShift.Version)
 			default:
